@@ -12,7 +12,7 @@ from __future__ import print_function
 
 import ast
 
-from sa.model import AnalysisError, norm, effects, MUTATORS
+from sa.model import AnalysisError, CallGraph, norm, effects, MUTATORS
 from sa.patheval import Interp, Native, Obj, Sym, Top, UnknownMethod
 from sa.report import RuleResult
 
@@ -392,6 +392,133 @@ def rule_r7(repo):
     return rr
 
 
+def rule_r9(repo):
+    """Two coder states created in one process (one interpreter, so module-level objects are shared as at run time) must not
+    hold the same mutable object in any register: what the first message leaves in it would be there for the second."""
+    from sa.rules.walk import WalkInterp, fold_init
+    from sa.rules import c06
+    rr = RuleResult('C13.R9', 'two coder states of one process share no mutable register object (fold of CoderState.__init__ twice in one interpreter)')
+    init = repo.own_method('CoderState', '__init__')
+    for comp in (False, True):
+        it = WalkInterp(repo, 'Decoder')
+        a = fold_init(repo, comp, 2, interp=it)
+        b = fold_init(repo, comp, 2, interp=it)
+        for sa_, sb in zip(a, b):
+            for attr in sorted(sa_.fields):
+                va, vb = sa_.fields[attr], sb.fields.get(attr)
+                rr.instance('CoderState.%s (%s)' % (attr, 'compressed' if comp else 'uncompressed'))
+                if c06._mutable(va) and va is vb:
+                    rr.fail('CoderState.%s:shared-between-messages' % attr, init.where,
+                            'two CoderState objects created one after the other hold the same %s object in %s: it is a module-level '
+                            'or class-level default, so entries the first message appends are seen by the second' % (type(va).__name__, attr))
+                elif isinstance(va, list) and isinstance(vb, list):
+                    for x in va:
+                        if c06._mutable(x) and any(x is y for y in vb):
+                            rr.fail('CoderState.%s:shared-between-messages' % attr, init.where,
+                                    'two CoderState objects share a per-subset record inside %s' % attr)
+                            break
+    rr.require_floor(40)
+    return rr
+
+
+def _param_mutations(fi, pname):
+    """Statements of `fi` that change the object bound to parameter `pname` in place, and calls that pass it on."""
+    muts, passes = [], []
+    rebound = False
+    for n in ast.walk(fi.node):
+        if isinstance(n, ast.Assign) and any(isinstance(t, ast.Name) and t.id == pname for t in n.targets):
+            rebound = True
+    for n in ast.walk(fi.node):
+        tg = []
+        if isinstance(n, ast.Assign):
+            tg = n.targets
+        elif isinstance(n, ast.AugAssign):
+            tg = [n.target]
+        elif isinstance(n, ast.Delete):
+            tg = n.targets
+        for t in tg:
+            if isinstance(t, (ast.Subscript, ast.Attribute)) and isinstance(t.value, ast.Name) and t.value.id == pname:
+                muts.append(n)
+            if isinstance(n, ast.AugAssign) and isinstance(t, ast.Name) and t.id == pname:
+                muts.append(n)        # += on a list / dict extends in place
+        if isinstance(n, ast.Call):
+            f = n.func
+            if isinstance(f, ast.Attribute) and f.attr in MUTATORS and isinstance(f.value, ast.Name) and f.value.id == pname:
+                muts.append(n)
+            for i, a in enumerate(n.args):
+                if isinstance(a, ast.Name) and a.id == pname:
+                    passes.append((n, i, None))
+            for k in n.keywords:
+                if isinstance(k.value, ast.Name) and k.value.id == pname:
+                    passes.append((n, None, k.arg))
+    return muts, passes, rebound
+
+
+def _bind(callee, call_node, pos, kw, bound_method):
+    params = list(callee.params)
+    if bound_method and params and params[0] in ('self', 'cls'):
+        params = params[1:]
+    if kw is not None:
+        return kw if kw in params else None
+    return params[pos] if pos is not None and pos < len(params) else None
+
+
+def rule_r10(repo):
+    """What a coder, querent or renderer object keeps for its whole life (attributes assigned in __init__) may be handed to helpers
+    for reading only: a helper that pops from / writes into such an argument changes the configuration for the next message."""
+    rr = RuleResult('C13.R10', 'long-lived configuration of a coder object is never modified in place by the helpers it is handed to')
+    owners = ('Decoder', 'Encoder', 'Coder', 'TemplateCompiler', 'DataQuerent', 'MetadataQuerent', 'BufrMessageQuerent',
+              'FlatTextRenderer', 'NestedTextRenderer', 'FlatJsonRenderer', 'NestedJsonRenderer', 'SectionConfigurer', 'CompiledTemplateManager')
+    n_sites = 0
+    for cname in owners:
+        if not repo.has_cls(cname):
+            continue
+        init = repo.method(cname, '__init__', required=False)
+        if init is None:
+            continue
+        attrs = effects(init).written('self')
+        cg = CallGraph(repo, cname)
+        for name, fi in sorted(repo.cls(cname).methods.items()):
+            if name == '__init__':
+                continue
+            for call in effects(fi).calls:
+                handed = []
+                for i, a in enumerate(call.args):
+                    if isinstance(a, ast.Attribute) and isinstance(a.value, ast.Name) and a.value.id == 'self' and a.attr in attrs:
+                        handed.append((a.attr, i, None))
+                for k in call.keywords:
+                    a = k.value
+                    if isinstance(a, ast.Attribute) and isinstance(a.value, ast.Name) and a.value.id == 'self' and a.attr in attrs:
+                        handed.append((a.attr, None, k.arg))
+                if not handed:
+                    continue
+                callees = cg.resolve_callee(fi, call.func)
+                for attr, pos, kw in handed:
+                    n_sites += 1
+                    rr.instance('%s.%s hands self.%s to %s' % (cname, name, attr, ', '.join(c.qualname for c in callees) or norm(call.func) + ' (not a repository function)'))
+                    work = [(c, _bind(c, call, pos, kw, isinstance(call.func, ast.Attribute)), 0) for c in callees]
+                    seen = set()
+                    while work:
+                        callee, pname, depth = work.pop()
+                        if pname is None or (callee.qualname, pname) in seen or depth > 4:
+                            continue
+                        seen.add((callee.qualname, pname))
+                        muts, passes, rebound = _param_mutations(callee, pname)
+                        for m in muts:
+                            rr.fail('%s.%s:%s' % (cname, attr, callee.qualname), '%s:%d' % (callee.module.relpath, m.lineno),
+                                    '%s changes its argument %s in place (%s); %s.%s passes the %s object\'s own self.%s there, so the '
+                                    'next message handled by the same object sees a different configuration' % (
+                                        callee.qualname, pname, norm(m)[:80], cname, name, cname, attr))
+                        cg2 = CallGraph(repo, callee.cls.name if callee.cls else cname)
+                        for c2, pos2, kw2 in passes:
+                            for cc in cg2.resolve_callee(callee, c2.func):
+                                work.append((cc, _bind(cc, c2, pos2, kw2, isinstance(c2.func, ast.Attribute)), depth + 1))
+    if n_sites < 2:
+        raise AnalysisError('only %d call sites hand a long-lived attribute to a helper (expected the overrides / table-directory sites)' % n_sites)
+    rr.require_floor(2)
+    return rr
+
+
 def run(repo, check):
     from sa.rules import c08
     check.run_rule(rule_r1, repo)
@@ -413,6 +540,8 @@ def run(repo, check):
     for f in r8.findings:
         f.rule = 'C13.R8'
     check.add(r8)
+    check.run_rule(rule_r9, repo)
+    check.run_rule(rule_r10, repo)
     check.assumptions = ['aliasing is tracked by name only (receivers named by the repository\'s conventions: descriptor, member, *_node, state); a store through an '
                          'unconventional alias would be missed',
                          'equality of results across histories is a runtime fact; the rules decide that the code has no channel through which history could act']
